@@ -21,6 +21,8 @@ pub enum Sym {
     T0,
     T1,
     T2,
+    /// a tags chunk with 300 tags
+    T300,
     P4,
     P11,
     PN,
@@ -43,6 +45,7 @@ impl Sym {
             Sym::T0 => "tags(0)",
             Sym::T1 => "tags(1)",
             Sym::T2 => "tags(2)",
+            Sym::T300 => "tags(300)",
             Sym::P4 => "oldpal04",
             Sym::P11 => "oldpal11",
             Sym::PN => "palette",
@@ -145,13 +148,14 @@ impl Machine {
                 m.slices += 1;
                 m.ctx = Ctx10::Ent(Ent::Slice(m.slices - 1));
             }
-            Sym::T0 | Sym::T1 | Sym::T2 => {
+            Sym::T0 | Sym::T1 | Sym::T2 | Sym::T300 => {
                 if m.frame != 0 || m.tags.is_some() {
                     return None;
                 }
                 m.tags = Some(match s {
                     Sym::T0 => 0,
                     Sym::T1 => 1,
+                    Sym::T300 => 300,
                     _ => 2,
                 });
                 m.ctx = Ctx10::Tag(0);
@@ -222,10 +226,11 @@ impl Machine {
                     slices += 1;
                     Some(ChunkSpec::Slice { s: SliceM { name: format!("S{}", slices - 1), flags: (pos % 4) as u32, keys: if pos % 2 == 0 { vec![] } else { vec![SliceKeyM { frame: 0, x: 1, y: 2, w: 3, h: 4, center: Some((1, 1, 1, 1)), pivot: Some((2, 2)) }] }, ud: None }, reserved: 0 })
                 }
-                Sym::T0 | Sym::T1 | Sym::T2 => {
+                Sym::T0 | Sym::T1 | Sym::T2 | Sym::T300 => {
                     let n = match s {
                         Sym::T0 => 0,
                         Sym::T1 => 1,
+                        Sym::T300 => 300,
                         _ => 2,
                     };
                     Some(ChunkSpec::Tags { tags: (0..n).map(|k| TagM { from: 0, to: 0, dir: 0, repeat: 0, color: 0, name: format!("T{}", k), ud: None }).collect(), reserved: [0; 8], tag_reserved: [0; 6] })
@@ -440,8 +445,26 @@ pub fn run(ctx: &Ctx) -> i32 {
     });
     sum.merge(rnd);
     // ---- giant programs: entity counts beyond 255 and beyond 65535 -------------------------------------
-    let giants = run_stage(ctx, "giant-programs", 6, |k| {
+    let giants = run_stage(ctx, "giant-programs", 8, |k| {
         let mut m = Machine::new();
+        if k >= 6 {
+            // tags(300) followed by 300 records (k = 6) or by 257 records (k = 7)
+            let mut m = Machine::new();
+            assert!(m.step_mut(Sym::L));
+            assert!(m.step_mut(Sym::T300));
+            let nrec = if k == 6 { 300 } else { 257 };
+            for i in 0..nrec {
+                assert!(m.step_mut([Sym::U3, Sym::U1, Sym::U0, Sym::U2][i % 4]));
+            }
+            let (leaves, v) = m.check();
+            let mut res = CaseResult::ok(crate::rng::hash_str("tags300") ^ k, leaves, "giant-program");
+            res.count("giant_program_chunks", m.seq.len() as u64);
+            if let Some(v) = v {
+                res.violations.push(v);
+            }
+            res.sample = Some(json!({"giant_program": format!("layer, tags(300), {} records", nrec)}));
+            return res;
+        }
         let (ent, n, name): (Sym, usize, &str) = match k {
             0 => (Sym::S, 65_537, "65537 slices"),
             1 => (Sym::L, 65_537, "65537 layers"),
